@@ -13,6 +13,7 @@ ITEMS = ["a", "b", "\n"] + ["\x1b[%dm" % c for c in CODES] + ["\x1b[m"]
 
 class C05(PureCheck):
     pid = "C05"
+    warm_every = 4
     rule = ("round trip: the attribute records of C01 (quick: all 5,184 without explicit False + sampled False variants; "
             "thorough: all 59,049) with texts containing newline/tab/CR/wide/combining characters, plus multi-run values; "
             "grammar: every string of <=3 (quick) / <=4 (thorough) items over {a, b, newline} u {ESC[p m : p in the 23 "
@@ -45,6 +46,10 @@ class C05(PureCheck):
                 a = [rng.choice([0, 0, 2, 5, 8]), rng.choice([0, 0, 1, 4])] + [rng.choice([0, 0, 0, 1, 2]) for _ in range(6)]
                 runs.append([enc.enc_text(rng.choice(["", "a", "b\n", "x\ny", "\n"])), a])
             yield {"op": "roundtrip", "runs": runs}
+        # one value with very many runs (thousands of escape sequences in one terminal string)
+        for nruns in (400, 1200, 3000):
+            runs = [[enc.enc_text("ab"[j % 2]), [1 + j % 3, 0, 2 * (j % 2), 0, 0, 0, 0, 0]] for j in range(nruns)]
+            yield {"op": "roundtrip", "runs": runs}
         # grammar strings
         depth = 3 if tier == "quick" else 4
         k = 0
@@ -74,6 +79,8 @@ class C05(PureCheck):
             f = FmtStr()
             for t, a in inp["runs"]:
                 f = f + fmtstr(enc.dec_text(t), **enc.dec_atts(a))
+            if enc.WARM:
+                enc.warm(f, enc.WARM)
             s = str(f)
             ev["f"] = enc.enc_fmtstr(f)
             ev["toks"] = enc.lex(s)
